@@ -101,6 +101,16 @@ class Frame:
     def __repr__(self):  # pragma: no cover
         return f"<{self.__class__.__name__} '{self.name}' at {hex(id(self))}>"
 
+    def __eq__(self, other):
+        # Frames are identified by their name: a frame coming out of a pickle
+        # is a copy of the registered one, and has to compare equal to it
+        if not isinstance(other, Frame):
+            return NotImplemented
+        return self.name == other.name
+
+    def __hash__(self):
+        return hash(self.name)
+
     def transform(self, orbit, new_frame):
 
         new_orb = orbit.copy(form="cartesian")
